@@ -57,6 +57,10 @@ func runC20(r *Result, d *drv.Driver, tier string, seed int64, replay string) {
 		"after each server's run the configuration and DefaultSupportedVersions must be unchanged and not share a backing array; the built-in handler is also called in process on each server (the only place the reply is a Go value), its reply checked for shared storage with the configuration, then overwritten and appended to, and the configuration re-read. distinct = one per (configuration, offer)", maxSup, maxOffer)
 	r.Exhaustive = true
 	sups := allLists(maxSup)
+	// configurations outside the universe: lists containing 0.0 - the zero value of ProtocolVersion is a version like any other -,
+	// 0.x and x.0 versions
+	sups = append(sups, []kmip.ProtocolVersion{{Major: 0, Minor: 0}}, []kmip.ProtocolVersion{{Major: 1, Minor: 4}, {Major: 0, Minor: 0}},
+		[]kmip.ProtocolVersion{{Major: 0, Minor: 0}, {Major: 1, Minor: 1}}, []kmip.ProtocolVersion{{Major: 0, Minor: 3}, {Major: 1, Minor: 0}, {Major: 0, Minor: 0}})
 	// "not configured" comes in three spellings: nil, an empty literal, a list filtered down to nothing (length 0, capacity left)
 	sups = append(sups, nil, nil)
 	nSup := len(sups)
